@@ -387,9 +387,11 @@ func markGuard(g Guard, nodeBase ssa.Value, want int64) bool {
 	return op == token.EQL && k == want
 }
 
-func flowRules(r *Report) {
+func flowRules(r *Report) { flowRulesAs(r, "R02e") }
+
+func flowRulesAs(r *Report, rule string) {
 	const fbT = "rueidis.flowBuffer"
-	nf := r.FnAnchor("R02e", "rueidis.newFlowBuffer")
+	nf := r.FnAnchor(rule, "rueidis.newFlowBuffer")
 	if nf != nil {
 		var sizes []ssa.Value
 		for _, b := range nf.Blocks {
@@ -400,7 +402,7 @@ func flowRules(r *Report) {
 			}
 		}
 		same := len(sizes) == 3 && sizes[0] == sizes[1] && sizes[1] == sizes[2]
-		r.Ob("R02e", nf, "equal-capacities", nf.Pos(), same, "the free, write and read channels must have the same capacity so that a token can always be forwarded without blocking")
+		r.Ob(rule, nf, "equal-capacities", nf.Pos(), same, "the free, write and read channels must have the same capacity so that a token can always be forwarded without blocking")
 		// prefill loop bound is that same size
 		pre := false
 		for _, b := range nf.Blocks {
@@ -419,7 +421,7 @@ func flowRules(r *Report) {
 				}
 			}
 		}
-		r.Ob("R02e", nf, "prefill-exactly-capacity", nf.Pos(), pre, "the free list is pre-filled by a loop bounded by exactly the channel capacity")
+		r.Ob(rule, nf, "prefill-exactly-capacity", nf.Pos(), pre, "the free list is pre-filled by a loop bounded by exactly the channel capacity")
 	}
 	// token moves
 	want := map[string][2]string{
@@ -427,7 +429,7 @@ func flowRules(r *Report) {
 		"NextResultCh": {"r", ""}, "FinishResult": {"", "f"},
 	}
 	for m, mv := range want {
-		fn := r.FnAnchor("R02e", "rueidis.(*flowBuffer)."+m)
+		fn := r.FnAnchor(rule, "rueidis.(*flowBuffer)."+m)
 		if fn == nil {
 			continue
 		}
@@ -460,7 +462,7 @@ func flowRules(r *Report) {
 			}
 		}
 		okMove := strings.Join(recvs, ",") == mv[0] && strings.Join(sends, ",") == mv[1]
-		r.Ob("R02e", fn, "token-move", fn.Pos(), okMove, "expected receive from ["+mv[0]+"] and send to ["+mv[1]+"], found receive from ["+strings.Join(recvs, ",")+"] send to ["+strings.Join(sends, ",")+"]: every token stays on the cycle f->w->r->f")
+		r.Ob(rule, fn, "token-move", fn.Pos(), okMove, "expected receive from ["+mv[0]+"] and send to ["+mv[1]+"], found receive from ["+strings.Join(recvs, ",")+"] send to ["+strings.Join(sends, ",")+"]: every token stays on the cycle f->w->r->f")
 		if okMove && mv[0] != "" && mv[1] != "" && recvSite != nil {
 			// the send happens on every path on which the token was received
 			var sendInstr ssa.Instruction
@@ -488,7 +490,7 @@ func flowRules(r *Report) {
 			} else {
 				tokenPath = Dominates(*recvSite, ss)
 			}
-			r.ObSite("R02e", ss, "forward-received-token", tokenPath, "the token is forwarded exactly on the path on which it was received")
+			r.ObSite(rule, ss, "forward-received-token", tokenPath, "the token is forwarded exactly on the path on which it was received")
 		}
 	}
 }
